@@ -22,6 +22,8 @@ func genCase(t *rapid.T) Case {
 
 func genProg(t *rapid.T) Prog {
 	g := &gen{t: t, pr: &Prog{}, feat: map[string]bool{}}
+	g.gotoProg = g.chance(4)
+	g.tickProg = g.chance(50)
 	g.genStructs()
 	// helpers usable by global initialisers come first
 	if g.chance(60) {
@@ -44,6 +46,9 @@ func genProg(t *rapid.T) Prog {
 		g.genFunc("exported")
 	}
 	g.genCalls()
+	if g.tickV != nil {
+		g.pr.Funcs = append(g.pr.Funcs, tickFunc())
+	}
 	if g.chance(3) {
 		// An exported function with type-only or blank parameters is valid Go; the compiler documents that it refuses
 		// such a method (the manifest could not name its parameters). Either it does, or manifest, debug information
@@ -480,6 +485,24 @@ func (g *gen) genFunc(kind string) {
 	}
 	if kind == "exported" || kind == "helper" {
 		body = append(body, g.prelude()...)
+	}
+	if named && g.chance(30) && g.on(kNamedRedecl) {
+		// `r0, v := e1, e2` at the top level of the body: parameters, results and the body share one scope, so this
+		// assigns the named result and declares only v
+		for _, r := range f.results {
+			if r.Type != "int" {
+				continue
+			}
+			e1, e2 := fitStore(g.genInt(1)), fitStore(g.genInt(1))
+			g.noteExpr(e1)
+			g.noteExpr(e2)
+			nm := g.newName(false)
+			g.add(&vinfo{name: nm, typ: "int", lo: e2.lo, hi: e2.hi})
+			body = append(body, &Node{K: "tassign", S: ":=", N: 2, A: []*Node{vr(r.Name), vr(nm), e1.n, e2.n}})
+			g.account(1)
+			g.mark("named-result-redeclare")
+			break
+		}
 	}
 	st, term := g.genStmts(maxSt)
 	body = append(body, st...)
